@@ -16,4 +16,4 @@ def replay(ctx, rec):
     return layout_engine.replay(ctx, 'C20', rec)
 
 
-CLAIM = {'text': "C20_complete: for EVERY one of the 65 536 halfwords that decode16 accepts, the 32-bit instruction it expands to is selected by a rule of the GENERATED criteria table (in generated order) that re-encodes it legally with the same meaning (in-kernel sweep; lui's second spelling included); C20_selection_link ties the numeric selection to the generated selection on items. C20_*_never_grows: each of the three size-changing passes replaces an item by something not larger (4->2, 8->4, align N -> pad < N), never the reverse. C20_never_longer_no_label_higher: for EVERY program without call / tail, any initial constants and labels, if both modes assemble then with -c no label of the program stands higher and the binary is not longer (two-run argument over the pass model: same groups per source item, exact sizes without -c, at most those with -c, li decided on constants only, layout after alignment monotone in the group sizes). C20_never_longer_all: the same WITH call / tail, for labels0 = [] and a pessimistic program size below 2^31 (lockstep induction over the pseudo passes of both runs: every label distance is, with compression, between 0 and the distance without, so near-without implies near-with). Falsifier: all 65 536 halfwords: expansion printed in every spelling, assembled with -c by the real assembler, must be 2 bytes of the same meaning; operands one step outside every RVC set must stay 4 bytes; length/labels comparison of both modes on generated programs.", 'note': 'Trusted: as C04. Partial: the monotonicity half has no theorem.', 'technique': 'Coq proof by exhaustive in-kernel sweep over all halfwords against the generated rule table + per-pass size lemmas; exhaustive real-assembler falsifier', 'design': '6/C20'}
+CLAIM = {'text': "C20_complete: for EVERY one of the 65 536 halfwords that decode16 accepts, the 32-bit instruction it expands to is selected by a rule of the GENERATED criteria table (in generated order) that re-encodes it legally with the same meaning (in-kernel sweep; lui's second spelling included); C20_selection_link ties the numeric selection to the generated selection on items. C20_program_eligible_is_compressed (+ _at by position, _no_aliases, C20_program_parsed_eligible_is_compressed with the parser model in front, C20_program_eligible_expansion_is_compressed for li small / mv / nop / jr / jalr / ret): for EVERY program that assembles with -c, every 32-bit instruction item of parser shape whose immediate is settled (is_settled on the constants: literal, not label-dependent) and whose numeric view after alias resolution is the expansion of a legal non-hint RV32C halfword comes out as exactly ONE chunk of exactly two bytes, the halfword of a legal RV32C instruction with the IDENTICAL expansion (item followed through all 16 passes; new in-kernel sweep elig_swept over all halfwords + 29 rules x 7 field shapes symbolically). C20_*_never_grows: each of the three size-changing passes replaces an item by something not larger (4->2, 8->4, align N -> pad < N), never the reverse. C20_never_longer_no_label_higher: for EVERY program without call / tail, any initial constants and labels, if both modes assemble then with -c no label of the program stands higher and the binary is not longer (two-run argument over the pass model: same groups per source item, exact sizes without -c, at most those with -c, li decided on constants only, layout after alignment monotone in the group sizes). C20_never_longer_all: the same WITH call / tail, for labels0 = [] and a pessimistic program size below 2^31 (lockstep induction over the pseudo passes of both runs: every label distance is, with compression, between 0 and the distance without, so near-without implies near-with). Falsifier: all 65 536 halfwords: expansion printed in every spelling, assembled with -c by the real assembler, must be 2 bytes of the same meaning; operands one step outside every RVC set must stay 4 bytes; length/labels comparison of both modes on generated programs.", 'note': 'Trusted: as C04. Partial: the monotonicity half has no theorem.', 'technique': 'Coq proof by exhaustive in-kernel sweep over all halfwords against the generated rule table + per-pass size lemmas; exhaustive real-assembler falsifier', 'design': '6/C20'}
